@@ -237,6 +237,7 @@ impl<'a> StepEval<'a> {
             Verdict::Fail(why) => {
                 let form = match &j.step.decoded.class {
                     crate::refmodel::insn::Class::Impl(i) => i.form(),
+                    _ if case.irq.is_some() => "interrupt acceptance".to_string(),
                     crate::refmodel::insn::Class::Unimpl(m) => format!("unimplemented {}", m),
                     _ => "undefined".to_string(),
                 };
